@@ -416,7 +416,7 @@ Proof.
       cbn [rspec] in HA. destruct HA as (W1 & (ext & -> & Hext) & Hin & _).
       unfold set_ub.
       set (u' := {| ub_unit := ub_unit u; ub_is_expanded := ub_is_expanded u;
-                    ub_expand_si := ub_expand_si u; ub_expanded := Some ids |}).
+                    ub_expand_si := true; ub_expanded := Some ids |}).
       destruct (set_nth_some u' (units ++ ext) id) as [units2 E2].
       { rewrite app_length. lia. }
       rewrite E2. cbn [bind ret].
@@ -439,7 +439,7 @@ Proof.
            ++ rewrite Hother in Hi by exact Hne. exact (wf_keys _ _ W1 i v Hi).
         -- intros i v f Hi Hf. destruct (Nat.eq_dec i id) as [->|Hne].
            ++ rewrite Hat in Hi. injection Hi as <-. cbn in Hf. injection Hf as <-.
-              split; [exact Ex|]. intro p.
+              split; [reflexivity|]. intro p.
               destruct (Hin p (In_all_sipre p)) as (H1 & H2 & H3).
               split; [apply Hidp|]. split; [intros p' He; apply H3; [apply In_all_sipre | exact He]|].
               exists (expanded_unit (ub_unit u) pt st p).
